@@ -23,8 +23,10 @@ structure AObj where
   params : List Nat              -- external nat parameters (what the `*uint32` arguments point to)
   deriving Inhabited
 
-def setBitN (n bit : Nat) : Nat := if testBit n bit then n else n + 2 ^ bit
-def clearBitN (n bit : Nat) : Nat := if testBit n bit then n - 2 ^ bit else n
+/-- `x |= 1 << bit` -/
+def setBitN (n bit : Nat) : Nat := n ||| 2 ^ bit
+/-- `x &^= 1 << bit` -/
+def clearBitN (n bit : Nat) : Nat := n ^^^ (n &&& 2 ^ bit)
 
 /-- current Go value of a mask reference (a reset / absent `#` field holds 0) -/
 def AObj.maskVal (o : AObj) : NatArg → Nat
@@ -50,18 +52,22 @@ def Field.hasAccessor (f : Field) : Bool :=
   | some _ => true
   | none => f.tl2bit.isSome
 
+/-- first step of `Set<F>(v)`: the value is stored (a `true`-typed field has no storage) -/
+def AObj.stored (o : AObj) (f : Field) (i : Nat) (v : Val) : AObj :=
+  if f.isBit then o else { o with vals := o.vals.set i (some v) }
+
+/-- the new value of the field mask: `|= bit`, except `&^= bit` for `Set<F>(false)` of a `true`-typed field -/
+def newMask (f : Field) (b : Bool) (m bit : Nat) : Nat := if f.isBit && !b then clearBitN m bit else setBitN m bit
+
 /-- `Set<F>(v)` for field `i`; `b` is the argument of a `true`-typed field -/
 def AObj.set (o : AObj) (fields : List Field) (i : Nat) (v : Val) (b : Bool) : AObj :=
   match fields[i]? with
   | none => o
   | some f =>
-    let o1 := if f.isBit then o else { o with vals := o.vals.set i (some v) }
     let o2 :=
       match f.mask with
-      | some (a, bit) =>
-        if f.isBit && !b then o1.withMask a (clearBitN (o1.maskVal a) bit)
-        else o1.withMask a (setBitN (o1.maskVal a) bit)
-      | none => o1
+      | some (a, bit) => (o.stored f i v).withMask a (newMask f b ((o.stored f i v).maskVal a) bit)
+      | none => o.stored f i v
     match f.tl2bit with
     | some _ => { o2 with tl2 := o2.tl2.set i (if f.isBit then b else true) }
     | none => o2
